@@ -82,6 +82,28 @@ T = {
     "C18-m3-set-mxcsr-skips-cached-value": ("set_mxcsr skips ldmxcsr when the value equals the last one written through that instance", "two register instances alternating writes", False, "C18 contexts are created from two register objects (the hardware register is one per thread)"),
     "C18-m4-enter-caches-new-state": ("context.__enter__ caches the modified value of its first entry", "one context object entered twice under different ambient MXCSR", True, ""),
     "C18-m5-exit-pops-oldest": ("context.__exit__ pops the oldest saved state", "re-entrant use of one context object", True, ""),
+    # ---- third wave
+    "C02-m3-acos-one-minus-square": ("real_acos: sqrt((1-x)*(1+x)) -> sqrt(1-x*x)", "positive x a little below 1 (turns one package test from passed to xfailed, none fails)", True, ""),
+    "C02-m4-asinh-sets-shared-context-parameter": ("real_asinh writes its default coefficient into Context.parameters under a name real_acosh reads with another meaning", "one Context: trace asinh, then acosh; evaluate acosh in the top binade", False, "C02 / C01 histories on one Context: g traced after f must compute what g traced in a fresh Context computes (all ordered pairs for C02, a rotating subset (all pairs thorough) for C01)"),
+    "C02-m5-hypot-underflow-correction-times-two": ("hypot underflow-correction term mx*r/2 -> mx*r*2", "min/max within a binade of sqrt(eps)", True, ""),
+    "C10-m3-mul-dekker-overflow-guard-no-abs": ("mul_dekker fix_overflow guard loses abs()", "fix_overflow=True, opposite signs, |x*y| within 2^-(p//2) of the largest value: low word -inf", True, ""),
+    "C10-m4-utils-sum-2sum-uses-fast2sum": ("utils.sum_2sum two-element branch calls add_fast2sum", "two items with |seq[0]| < |seq[1]|", True, ""),
+    "C10-m5-apmath-split-unscaled": ("apmath.split calls split_veltkamp without scale=True", "|x| > largest/C", True, ""),
+    "C11-m3-is-power-of-two-default-uses-sibling-parameters": ("is_power_of_two default branch reads the constants of is_one_or_three_times_power_of_two", "default parameters and x = +-3*2^k", True, ""),
+    "C11-m4-fma-a9-vl-vh-typo": ("fma_real a9: vl == 0 -> vh == 0", "algorithm a9, cancellation, low word a power of two", True, ""),
+    "C11-m5-apmath-fma-two-prod-flags-swapped": ("apmath.fma passes fix_overflow/scale positionally in the wrong order", "algorithm apmath, fix_overflow=False, scale=True, one large factor, cancellation", True, ""),
+    "C12-m3-overlapping-asymmetric-boundary": ("utils.overlapping: first comparison >= -> >", "(smaller, larger) argument order with |x| == ulp(y)", True, ""),
+    "C12-m4-renormalize-two-sum-flags-swapped": ("renormalize second stage passes fast/fix_overflow positionally into two_sum's (fix_overflow, assume_fma) slots", "fast=False, fix_overflow=True, unordered input", False, "C12 fix_overflow dimension for renormalize (NumpyContext and eager routes)"),
+    "C12-m5-subtract-truncates-operands-first": ("subtract truncates both operands to `size` before subtracting", "a size limit below an operand's length with cancelling leading terms", False, "C12 size-limited add/subtract must stay exact whenever the exact result fits into `size` terms (operands of length 3)"),
+    "C13-m3-bin2float-negzero-int-literal": ("bin2float('-0') returns dtype(-0) = +0.0", "the string '-0', bitwise comparison", True, ""),
+    "C13-m4-fraction2float-default-prec-from-mp": ("fraction2float default precision taken from mpmath.mp.prec", "global mpmath.mp precision more than 10 bits below the format's", False, "C13 repeats a sub-lattice of every conversion while the global mpmath.mp context works at 11 and 24 bits"),
+    "C13-m5-mpf2float-min-context-precision": ("mpf2float rounds to min(context precision, format precision)", "an mpf whose context precision is below the format's", True, ""),
+    "C15-m3-mpf2float-flush-test-before-rounding": ("mpf2float tests for flush/zero before rounding", "values just below the threshold that round up to it", True, ""),
+    "C15-m4-unspecified-flush-sentinel-truthy": ("vectorize_with_mpmath: `flush_subnormals or default`: the UNSPECIFIED sentinel is truthy", "flush_subnormals not passed at all and a subnormal result", True, ""),
+    "C15-m5-backend-context-from-last-argument": ("vectorize_with_backend.__call__ takes the evaluation context from the last float argument", "two float arguments of different dtypes with extra precision", False, "C15 binary functions on all ordered pairs of argument types (which also surfaced the recorded mixed-type finding for expressions led by the second argument)"),
+    "C19-m3-split-at-zero-forgets-zero-slot": ("real_samples split-at-zero clamp forgets the slot of the zero sample", "mixed-sign bounds, include_zero, lopsided range", True, ""),
+    "C19-m4-fix-limit-value-zero-is-falsy": ("_fix_limit_value: `if value is None` -> `if not value`", "a scalar bound equal to zero given to the pair / complex-pair generators", False, "C19 product-generator configurations with +-0 bounds"),
+    "C19-m5-complex-samples-imag-include-huge": ("complex_samples does not forward include_huge to the imaginary axis", "include_huge=False with a large enough imaginary size", True, ""),
 }
 
 
